@@ -19,7 +19,7 @@ RULE = ('cases: every grid-world shape with extents 0..N per axis (DiscreteWorld
         'is the coordinate; get_cell(x,y,z) is that very row (row label = id, pos and the distinguishing cell-component values equal '
         'to the coordinate\'s); outside coordinates raise IndexError. Non-trivial shape: >=2 cells; distinct by (world class, extents).')
 ASSUMPTIONS = ['exhaustive only for extents <= N', 'cell ids are obtained with discrete_grid_pos_to_id(x, y, width, z, height) as documented']
-FLOORS = {'quick': {'cases_in_mode_optimised': 24, 'rows_checked_in_a_deep_copy_of_the_world': 1062, 'lookups_from_inside_a_generator': 960, 'generators_failing_part_way': 98, 'sibling_world_rows_checked': 739, 'id_by_keywords': 1593, 'id_with_defaults': 1579, 'id_numpy_coordinates': 3031, 'cell_y_omitted_z_keyword': 709, 'cell_numpy_coordinates': 1804, 'cell_defaults': 787, 'cell_by_keywords': 1743, 'shapes': 72, 'cells_checked': 720, 'outside_probes': 2000, 'cells_rechecked_after_update': 700, 'wrapping_shapes': 72, 'big_shapes': 2, 'big_cells': 12566, 'cells_rechecked_after_regeneration': 500, 'shapes_with_zero_axis': 30, 'line_worlds': 2,
+FLOORS = {'quick': {'cell_deprecated_alias': 1810, 'id_deprecated_alias': 1329, 'generators_that_change_the_table_between_two_lookups': 96, 'cases_in_mode_optimised': 24, 'rows_checked_in_a_deep_copy_of_the_world': 1062, 'lookups_from_inside_a_generator': 960, 'generators_failing_part_way': 98, 'sibling_world_rows_checked': 739, 'id_by_keywords': 1593, 'id_with_defaults': 1579, 'id_numpy_coordinates': 3031, 'cell_y_omitted_z_keyword': 709, 'cell_numpy_coordinates': 1804, 'cell_defaults': 787, 'cell_by_keywords': 1743, 'shapes': 72, 'cells_checked': 720, 'outside_probes': 2000, 'cells_rechecked_after_update': 700, 'wrapping_shapes': 72, 'big_shapes': 2, 'big_cells': 12566, 'cells_rechecked_after_regeneration': 500, 'shapes_with_zero_axis': 30, 'line_worlds': 2,
                     'grid_worlds': 8, 'reach:Environments.DiscreteWorld.get_cell': 2700, 'reach:Environments.discrete_grid_pos_to_id': 1400},
           'thorough': {'shapes': 500, 'cells_checked': 20000}}
 EXHAUSTIVE = {'quick': 'all grid shapes with extents 0..4 (125 DiscreteWorld, 4 LineWorld, 16 GridWorld) non-wrapping and wrapping, all in-range and just-outside coordinates',
